@@ -6,11 +6,12 @@ from harness.common import CANARY_BASE, keep, Report, import_hpl, rng, split_can
 from harness.drive import call_parser, exc_name
 
 
-def three_ways(text, exp, base):
+def ways(text, exp, base):
     outs = []
     o, _ = call_parser('property', text)
     outs.append(['parsed', o])
-    for way, fn in (('api', lambda: build.prop(exp)), ('copied', lambda: build.prop_by_copy(exp, base))):
+    for way, fn in (('api', lambda: build.prop(exp)), ('copied', lambda: build.prop_by_copy(exp, base)),
+                    ('derived', lambda: build.prop_derived(exp))):
         try:
             fn()
             outs.append([way, 'ast'])
@@ -41,7 +42,7 @@ def run(replay=None):
             if not keep(text):
                 continue
             eid += 1
-            events.append({'id': eid, 'expected': exp, 'outs': three_ways(text, exp, base)})
+            events.append({'id': eid, 'expected': exp, 'outs': ways(text, exp, base)})
             info[eid] = text
     canaries = []
     for ev in events:
